@@ -124,14 +124,11 @@ theorem reshapeFinish_error (size : Int) (s : List Int) (e : Err) (h : reshapeFi
     · cases h; rfl
     · cases h
 
-/-- **reshapeShape_spec.** outside the two excluded regions `COO.reshape` accepts exactly the target shapes NumPy accepts,
-and every rejection is a `ValueError` -/
-theorem reshapeShape_spec1 (old : List Nat) (shape : List Int)
-    (h1 : ¬ ExcludedSeveralUnknown shape) (h2 : ¬ ExcludedInfExtent old shape) :
+/-- **reshapeShape_spec1.** `COO.reshape` accepts exactly the target shapes of NumPy's rule restricted to `-1` as the only
+unknown marker, and every rejection is a `ValueError` — for every array shape and every target -/
+theorem reshapeShape_spec1 (old : List Nat) (shape : List Int) :
     ((∃ s, reshapeShape old shape = .ok s) ↔ npReshapeOk1 old shape) ∧
     (∀ e, reshapeShape old shape = .error e → e = Err.value) := by
-  have hu : unknowns shape ≤ 1 := by
-    unfold ExcludedSeveralUnknown at h1; unfold unknowns; omega
   unfold reshapeShape npReshapeOk1
   by_cases hsame : old.map Int.ofNat = shape
   · -- the shape is unchanged
@@ -148,44 +145,48 @@ theorem reshapeShape_spec1 (old : List Nat) (shape : List Int)
     rw [← hsame, iprod_map_ofNat]
   · simp only [hsame, if_false]
     by_cases hany : shape.any (· == -1) = true
-    · -- exactly one unknown extent
-      have hu1 : unknowns shape = 1 := by have := (any_unknown_iff shape).mp hany; omega
-      have hlen : (shape.filter (· == -1)).length = 1 := hu1
-      simp only [hany, if_true, hlen, Nat.succ_ne_zero, false_and, false_or, true_and]
-      by_cases hp : iprod (shape.filter (· != -1)) = 0
-      · by_cases hs : ((prod old : Nat) : Int) = 0
-        · simp [hp, hs]
-        · exfalso; apply h2
-          refine ⟨hany, hp, ?_, hsame⟩
-          intro h0; apply hs; simp [h0]
-      · simp only [hp, if_false]
-        constructor
-        · rw [reshapeFinish_ok_iff, iprod_subst, hu1, Int.pow_one]
-          constructor
-          · rintro ⟨hsz, hall⟩
-            refine ⟨?_, hp, ?_⟩
-            · intro d hd
-              have hm := List.mem_filter.mp hd
-              have hne : (d == -1) = false := by simpa using hm.2
-              have := hall (if (d == -1) = true then _ else d) (List.mem_map.mpr ⟨d, hm.1, rfl⟩)
-              simpa [hne] using this
-            · rw [hsz]; exact Int.mul_emod_left _ _
-          · rintro ⟨hrest, _, hmod⟩
-            have hpn : 0 ≤ iprod (shape.filter (· != -1)) := iprod_nonneg _ hrest
-            have hpp : 0 < iprod (shape.filter (· != -1)) := by omega
-            have hsn : (0 : Int) ≤ ((prod old : Nat) : Int) := Int.natCast_nonneg _
-            have hdiv : Int.tdiv ((prod old : Nat) : Int) (iprod (shape.filter (· != -1)))
-                = ((prod old : Nat) : Int) / iprod (shape.filter (· != -1)) := Int.tdiv_eq_ediv_of_nonneg hsn
-            refine ⟨?_, ?_⟩
-            · rw [hdiv]; exact (Int.ediv_mul_cancel (Int.dvd_of_emod_eq_zero hmod)).symm
-            · intro d hd
-              simp only [List.mem_map] at hd
-              obtain ⟨d0, hd0, rfl⟩ := hd
-              split
-              · rw [hdiv]; exact Int.ediv_nonneg hsn hpn
-              · rename_i hne
-                exact hrest d0 (List.mem_filter.mpr ⟨hd0, by simpa using hne⟩)
-        · intro e he; exact reshapeFinish_error _ _ e he
+    · simp only [hany, if_true]
+      by_cases hsev : 1 < (shape.filter (· == -1)).length
+      · -- several unknown extents: rejected
+        simp only [hsev, if_true]
+        refine ⟨⟨fun ⟨_, h⟩ => (by cases h), ?_⟩, fun e he => (by cases he; rfl)⟩
+        rintro ⟨_, h | h⟩ <;> omega
+      · -- exactly one unknown extent
+        have hu1 : unknowns shape = 1 := by
+          have := (any_unknown_iff shape).mp hany; unfold unknowns at *; omega
+        have hlen : (shape.filter (· == -1)).length = 1 := hu1
+        simp only [hlen, Nat.lt_irrefl, if_false, Nat.succ_ne_zero, false_and, false_or, true_and]
+        by_cases hp : iprod (shape.filter (· != -1)) = 0
+        · simp [hp]
+        · by_cases hm : Int.fmod ((prod old : Nat) : Int) (iprod (shape.filter (· != -1))) = 0
+          · have hdvd : iprod (shape.filter (· != -1)) ∣ ((prod old : Nat) : Int) := Int.dvd_of_fmod_eq_zero hm
+            simp only [hp, hm, ne_eq, not_true_eq_false, or_self, if_false]
+            constructor
+            · rw [reshapeFinish_ok_iff, iprod_subst, hu1, Int.pow_one]
+              constructor
+              · rintro ⟨_, hall⟩
+                refine ⟨?_, not_false, Int.emod_eq_zero_of_dvd hdvd⟩
+                intro d hd
+                have hmem := List.mem_filter.mp hd
+                have hne : (d == -1) = false := by simpa using hmem.2
+                have := hall (if (d == -1) = true then _ else d) (List.mem_map.mpr ⟨d, hmem.1, rfl⟩)
+                simpa [hne] using this
+              · rintro ⟨hrest, _, _⟩
+                have hpn : 0 ≤ iprod (shape.filter (· != -1)) := iprod_nonneg _ hrest
+                have hsn : (0 : Int) ≤ ((prod old : Nat) : Int) := Int.natCast_nonneg _
+                refine ⟨(Int.fdiv_mul_cancel_of_fmod_eq_zero hm).symm, ?_⟩
+                intro d hd
+                simp only [List.mem_map] at hd
+                obtain ⟨d0, hd0, rfl⟩ := hd
+                split
+                · rw [Int.fdiv_eq_ediv_of_nonneg _ hpn]; exact Int.ediv_nonneg hsn hpn
+                · rename_i hne
+                  exact hrest d0 (List.mem_filter.mpr ⟨hd0, by simpa using hne⟩)
+            · intro e he; exact reshapeFinish_error _ _ e he
+          · simp only [hp, hm, ne_eq, not_false_eq_true, or_true, if_true]
+            refine ⟨⟨fun ⟨_, h⟩ => (by cases h), ?_⟩, fun e he => (by cases he; rfl)⟩
+            rintro ⟨_, _, hmod⟩
+            exact absurd (Int.fmod_eq_zero_of_dvd (Int.dvd_of_emod_eq_zero hmod)) hm
     · -- no unknown extent
       have hany' : shape.any (· == -1) = false := by
         cases hb : shape.any (· == -1) with
@@ -202,7 +203,7 @@ theorem reshapeShape_spec1 (old : List Nat) (shape : List Int)
         · rintro ⟨a, b⟩; exact ⟨b.symm, a⟩
       · intro e he; exact reshapeFinish_error _ _ e he
 
-theorem filter_neg_eq (shape : List Int) (h : ¬ ExcludedOtherNegative shape) :
+theorem filter_neg_eq (shape : List Int) (h : ¬ OtherNegative shape) :
     shape.filter (fun d => decide (d < 0)) = shape.filter (· == -1) ∧
     shape.filter (fun d => decide (0 ≤ d)) = shape.filter (· != -1) := by
   have hall : ∀ d ∈ shape, -1 ≤ d := by
@@ -221,7 +222,7 @@ theorem filter_neg_eq (shape : List Int) (h : ¬ ExcludedOtherNegative shape) :
       have hn : ¬ d < 0 := by omega
       simp [bne, h2, hd0, hn]
 
-theorem npReshapeOk_iff1 (old : List Nat) (shape : List Int) (h : ¬ ExcludedOtherNegative shape) :
+theorem npReshapeOk_iff1 (old : List Nat) (shape : List Int) (h : ¬ OtherNegative shape) :
     npReshapeOk old shape ↔ npReshapeOk1 old shape := by
   unfold npReshapeOk npReshapeOk1
   obtain ⟨e1, e2⟩ := filter_neg_eq shape h
@@ -234,14 +235,27 @@ theorem npReshapeOk_iff1 (old : List Nat) (shape : List Int) (h : ¬ ExcludedOth
   · intro hh; exact ⟨hrest, hh⟩
   · intro hh; exact hh.2
 
-/-- **reshapeShape_spec.** outside the three excluded regions `COO.reshape` accepts exactly the target shapes NumPy accepts,
+/-- NumPy's rule implies the `-1`-only rule whenever no extent is below `-1`; the `-1`-only rule always implies that -/
+theorem npReshapeOk1_no_other_negative (old : List Nat) (shape : List Int) (h : npReshapeOk1 old shape) : ¬ OtherNegative shape := by
+  rintro ⟨d, hd, hlt⟩
+  have hne : (d != -1) = true := by simp; omega
+  have := h.1 d (List.mem_filter.mpr ⟨hd, hne⟩)
+  omega
+
+/-- **reshapeShape_spec.** `COO.reshape` accepts exactly the target shapes NumPy accepts that have no extent below `-1`,
 and every rejection is a `ValueError` -/
-theorem reshapeShape_spec (old : List Nat) (shape : List Int)
-    (h1 : ¬ ExcludedSeveralUnknown shape) (h2 : ¬ ExcludedInfExtent old shape) (h3 : ¬ ExcludedOtherNegative shape) :
-    ((∃ s, reshapeShape old shape = .ok s) ↔ npReshapeOk old shape) ∧
+theorem reshapeShape_spec (old : List Nat) (shape : List Int) :
+    ((∃ s, reshapeShape old shape = .ok s) ↔ npReshapeOk old shape ∧ ¬ OtherNegative shape) ∧
     (∀ e, reshapeShape old shape = .error e → e = Err.value) := by
-  rw [npReshapeOk_iff1 old shape h3]
-  exact reshapeShape_spec1 old shape h1 h2
+  obtain ⟨h1, h2⟩ := reshapeShape_spec1 old shape
+  refine ⟨?_, h2⟩
+  rw [h1]
+  constructor
+  · intro h
+    have hn := npReshapeOk1_no_other_negative old shape h
+    exact ⟨(npReshapeOk_iff1 old shape hn).mpr h, hn⟩
+  · rintro ⟨h, hn⟩
+    exact (npReshapeOk_iff1 old shape hn).mp h
 
 theorem any_neg_iff (sh : List Int) : (sh.any (· < 0) = true) ↔ ¬ ∀ d ∈ sh, 0 ≤ d := by
   simp only [List.any_eq_true, decide_eq_true_eq, Classical.not_forall]
@@ -250,59 +264,70 @@ theorem any_neg_iff (sh : List Int) : (sh.any (· < 0) = true) ↔ ¬ ∀ d ∈ 
   · rintro ⟨d, hd, hlt⟩; exact ⟨d, hd, by omega⟩
 
 /-- the constructor's verdict for 1-d data, as a decision -/
-theorem cooCtor_eq (rows cols n : Nat) (sh : List Int) (hne : sh ≠ []) :
+theorem cooCtor_eq (rows cols n : Nat) (sh : List Int) :
     cooCtor rows cols 1 n (some sh) =
       if sh.any (· < 0) then .error .value
-      else if rows * cols = 0 then (if n ≠ 0 then .error .value else .ok (sh.map Int.toNat))
+      else if sh ≠ [] ∧ rows * cols = 0 then (if n ≠ 0 then .error .value else .ok (sh.map Int.toNat))
       else if n ≠ cols then .error .value
       else if sh.length ≠ rows then .error .value
       else .ok (sh.map Int.toNat) := by
   unfold cooCtor
-  by_cases hz : rows * cols = 0
-  · simp [hne, hz]
-  · simp [hne, hz]
+  by_cases hz : sh ≠ [] ∧ rows * cols = 0
+  · simp [hz]
+  · simp only [hz, if_false]
+    simp
 
-theorem ctor_partial (rows cols n : Nat) (sh : List Int) (hne : sh ≠ []) :
-    ((∃ r, cooCtor rows cols 1 n (some sh) = .ok r) ↔ ctorContract rows cols n sh) ∧
-    (∀ e, cooCtor rows cols 1 n (some sh) = .error e → e = Err.value) := by
-  rw [cooCtor_eq rows cols n sh hne]
-  unfold ctorContract
-  have hneg := any_neg_iff sh
-  have hlen : sh.length ≠ 0 := fun h => hne (List.length_eq_zero_iff.mp h)
-  constructor
-  · constructor
-    · rintro ⟨r, h⟩
-      split at h
-      · cases h
-      · rename_i hs
-        have hall : ∀ d ∈ sh, 0 ≤ d := Classical.not_not.mp (mt hneg.mpr hs)
-        refine ⟨hall, ?_⟩
-        split at h
-        · rename_i hz
-          split at h
-          · cases h
-          · rename_i hn; left; exact ⟨hz, hne, by omega⟩
-        · split at h
-          · cases h
-          · split at h
-            · cases h
-            · rename_i hn hl; right; exact ⟨by omega, by omega⟩
-    · rintro ⟨hall, hh⟩
-      have hs : ¬ (sh.any (· < 0) = true) := fun h => hneg.mp h hall
-      rw [if_neg hs]
-      rcases hh with ⟨hz, _, hn⟩ | ⟨hn, hl⟩
-      · rw [if_pos hz, if_neg (by omega)]; exact ⟨_, rfl⟩
-      · by_cases hz : rows * cols = 0
-        · rw [if_pos hz]
-          have : n = 0 := by
-            rcases Nat.mul_eq_zero.mp hz with hr | hc
-            · omega
-            · omega
-          rw [if_neg (by omega)]; exact ⟨_, rfl⟩
-        · rw [if_neg hz, if_neg (by omega), if_neg (by omega)]; exact ⟨_, rfl⟩
-  · intro e h
+/-- every rejection of the constructor is a `ValueError`, whatever the rank of `data` and whether or not a shape is given -/
+theorem cooCtor_error (rows cols dn n : Nat) (shape : Option (List Int)) (e : Err)
+    (h : cooCtor rows cols dn n shape = .error e) : e = Err.value := by
+  unfold cooCtor at h
+  cases shape with
+  | none =>
+    simp only at h
+    split at h <;> (cases h; rfl)
+  | some sh =>
+    simp only at h
     repeat' split at h
     all_goals first | (cases h; rfl) | cases h
+
+theorem ctor_spec (rows cols n : Nat) (sh : List Int) :
+    ((∃ r, cooCtor rows cols 1 n (some sh) = .ok r) ↔ ctorContract rows cols n sh) ∧
+    (∀ e, cooCtor rows cols 1 n (some sh) = .error e → e = Err.value) := by
+  refine ⟨?_, fun e h => cooCtor_error _ _ _ _ _ e h⟩
+  rw [cooCtor_eq rows cols n sh]
+  unfold ctorContract
+  have hneg := any_neg_iff sh
+  constructor
+  · rintro ⟨r, h⟩
+    split at h
+    · cases h
+    · rename_i hs
+      have hall : ∀ d ∈ sh, 0 ≤ d := Classical.not_not.mp (mt hneg.mpr hs)
+      refine ⟨hall, ?_⟩
+      split at h
+      · rename_i hz
+        split at h
+        · cases h
+        · rename_i hn; left; exact ⟨hz.2, hz.1, by omega⟩
+      · split at h
+        · cases h
+        · split at h
+          · cases h
+          · rename_i hn hl; right; exact ⟨by omega, by omega⟩
+  · rintro ⟨hall, hh⟩
+    have hs : ¬ (sh.any (· < 0) = true) := fun h => hneg.mp h hall
+    rw [if_neg hs]
+    rcases hh with ⟨hz, hne, hn⟩ | ⟨hn, hl⟩
+    · rw [if_pos ⟨hne, hz⟩, if_neg (by omega)]; exact ⟨_, rfl⟩
+    · by_cases hz : sh ≠ [] ∧ rows * cols = 0
+      · rw [if_pos hz]
+        have hlen : sh.length ≠ 0 := fun h => hz.1 (List.length_eq_zero_iff.mp h)
+        have : n = 0 := by
+          rcases Nat.mul_eq_zero.mp hz.2 with hr | hc
+          · omega
+          · omega
+        rw [if_neg (by omega)]; exact ⟨_, rfl⟩
+      · rw [if_neg hz, if_neg (by omega), if_neg (by omega)]; exact ⟨_, rfl⟩
 
 end Validate
 end SparseV
